@@ -355,7 +355,7 @@ def mini_fault(label):
     return label in ('stop0', 'undef-elem@0')
 
 
-def stream_body(tup, menu='full'):
+def stream_body(tup, menu='full', ccmax=None):
     P = stream_pool()
     if menu == 'core':
         P = [(n, b, [f for f in fs if core_fault(f[0])]) for n, b, fs in P]
@@ -376,30 +376,38 @@ def stream_body(tup, menu='full'):
                 classes.append(faults[f - 1][1])
         stream = sep + sep.join(x[0] for x in items) + sep
         res = {'outcome': (len(tup), tuple(sorted(classes))), 'stream': stream, 'viols': []}
-        for info_only in (False, True):
+        for info_only in ((False, True) if ccmax is None else (False,)):
             for cont in (True, False):
-                got, exc = scan(stream, info_only, cont)
+                dec = None
+                if ccmax is not None:
+                    # one decoder with template compilation for the whole stream (the compiled-template cache lives in it)
+                    from pybufrkit.decoder import Decoder
+                    dec = Decoder(compiled_template_cache_max=ccmax)
+                got, exc = scan(stream, info_only, cont, dec)
                 v = judge_scan(items, got, exc, info_only, cont)
                 if v:
-                    res['viols'].append((v[0] + '|' + '+'.join(sorted(set(classes))), v[1], info_only, cont))
+                    res['viols'].append((v[0] + '|' + '+'.join(sorted(set(classes))) + ('' if ccmax is None else '|compiled'),
+                                         v[1], info_only, cont))
         return res
     return body
 
 
 def run_streams(args):
-    tuples, bound, menu = args
+    tuples, bound, menu = args[:3]
+    ccmax = args[3] if len(args) > 3 else None
     p = Partial()
     st = tree.Stats()
     for tup in tuples:
         def on_leaf(ctx, res, tup=tup):
-            p.n['exec'] += 4
+            p.n['exec'] += 4 if ccmax is None else 2
             p.outcome(res['outcome'])
             for sig, detail, io_, cont in res['viols']:
-                p.violation(sig, {'tuple': list(tup), 'choices': ctx.vector(), 'info_only': io_, 'cont': cont, 'menu': menu}, detail,
+                p.violation(sig, {'tuple': list(tup), 'choices': ctx.vector(), 'info_only': io_, 'cont': cont, 'menu': menu,
+                                  'ccmax': ccmax}, detail,
                             observed=res['stream'])
             if not res['viols'] and p.n['exec'] % 4000 == 4:
                 p.sample({'tuple': list(tup), 'choices': ctx.vector()})
-        tree.explore(stream_body(tup, menu), bound, on_leaf, st)
+        tree.explore(stream_body(tup, menu, ccmax), bound, on_leaf, st)
     p.n['nodes'] += st.nodes
     p.n['edges'] += st.edges
     return p
@@ -524,7 +532,7 @@ def replay(part, case):
         p = run_cli_part(None)
         return [{'sig': v['sig'], 'detail': v['detail']} for v in p.viol
                 if all(v['case'][k] == case[k] for k in ('message', 'fault', 'cont'))]
-    ctx, res = tree.replay(stream_body(tuple(case['tuple']), case.get('menu', 'full')), case['choices'])
+    ctx, res = tree.replay(stream_body(tuple(case['tuple']), case.get('menu', 'full'), case.get('ccmax')), case['choices'])
     return [{'sig': s, 'detail': d} for s, d, io_, cont in res['viols'] if io_ == case['info_only'] and cont == case['cont']]
 
 
@@ -584,6 +592,17 @@ def main(tier, seed):
         rep.add_part('streams-j%d-d%d-%s' % (j, bound, menu), p,
                      bounds={'messages_in_stream': j, 'max_damaged': bound, 'pool': len(idx), 'menu': menu,
                              'faults_per_message': nf})
+    # the same streams read by a decoder with template compilation (cache sizes 0, 1, 4): damage must be detected whether or
+    # not a template - of this or of an equally damaged earlier message - is in the compiled-template cache
+    cplan = ([(1, 2, 2, 'core'), (0, 3, 2, 'mini'), (4, 3, 2, 'mini')] if tier == 'quick' else
+             [(c, j, b, m) for c in (0, 1, 4) for j, b, m in ((2, 2, 'full'), (3, 2, 'core'), (4, 2, 'mini'))])
+    for ccmax, j, bound, menu in cplan:
+        if True:
+            tuples = list(itertools.product(idx, repeat=j))
+            p = merge_all(run_shards(run_streams, [(s, bound, menu, ccmax) for s in split(tuples, 64)]))
+            rep.add_part('streams-compiled%d-j%d-d%d-%s' % (ccmax, j, bound, menu), p,
+                         bounds={'messages_in_stream': j, 'max_damaged': bound, 'pool': len(idx), 'menu': menu,
+                                 'compiled_template_cache_max': ccmax, 'modes': ['full/continue', 'full/stop']})
     p = merge_all(run_shards(run_history, [[i] for i in idx]))
     rep.add_part('decoder-history', p, bounds={'pool': len(idx), 'faults': 'full menu', 'earlier_operations': PRE_OPS,
                                                'modes': 4, 'stream': '[good, damaged, good]'})
